@@ -172,23 +172,19 @@ def connector_args(s):
     out = {}
     eps = []          # what finally reaches an endpoint: (kind, host[, port])
 
-    class Ep:
-        def __init__(self, kind, *a):
-            eps.append((kind,) + tuple(a[1:]))
-
-        def connect(self, f):
-            from twisted.internet.defer import Deferred
-            return Deferred()
+    def on_connect(kind, args, factory):
+        from twisted.internet.defer import Deferred
+        eps.append((kind,) + tuple(args))
+        return Deferred()
     real_fc = vclient.factory_connect
 
     def recording_fc(f, h, p_, fam, rec_):
         rec_.append((h, p_, fam))
-        with mock.patch.object(vclient, "HostnameEndpoint", lambda *a: Ep("hostname", *a)), \
-                mock.patch.object(vclient, "UNIXClientEndpoint", lambda *a: Ep("unix", *a)):
+        with fake_endpoints(on_connect):
             real_fc(f, h, p_, fam)          # the real glue: family -> endpoint, host and port handed on
     # vncdo -s S key a
     rec = []
-    with mock.patch.object(command, "reactor", _Rx()), mock.patch.object(command, "setup_logging", lambda o: None), \
+    with use_reactor(_Rx()), mock.patch.object(command, "setup_logging", lambda o: None), \
             mock.patch.object(command, "factory_connect", lambda f, h, p_, fam: recording_fc(f, h, p_, fam, rec)), \
             mock.patch.object(sys, "argv", ["vncdo", "-s", s, "key", "a"]), mock.patch.object(sys, "stderr", open(os.devnull, "w")):
         try:
@@ -203,7 +199,7 @@ def connector_args(s):
             out["vncdo"] = ("err", exc_class(e))
     # api.connect(S): the real proxy class, the reactor only records what is scheduled
     rx = _Rx()
-    with mock.patch.object(api, "reactor", rx):
+    with use_reactor(rx):
         try:
             api.connect(s)
             calls = [c for c in rx.when_running if c[0] is api.factory_connect or getattr(c[0], "__name__", "") == "factory_connect"]
@@ -239,7 +235,7 @@ def connector_args(s):
         out_ = orig_parse(sv)
         fam_seen.append(out_[0])
         return out_
-    with mock.patch.object(command, "reactor", _RxLog()), mock.patch.object(command, "setup_logging", lambda o: None), \
+    with use_reactor(_RxLog()), mock.patch.object(command, "setup_logging", lambda o: None), \
             mock.patch.object(command, "parse_server", parse_and_note), \
             mock.patch.object(sys, "argv", ["vnclog", "-s", s, "out.vdo"]), mock.patch.object(sys, "stderr", open(os.devnull, "w")):
         try:
@@ -263,15 +259,11 @@ def endpoint_for(fam, host, port):
     from vncdotool import client as vclient
     made = []
 
-    class Ep:
-        def __init__(self, kind, *a):
-            made.append((kind,) + a[1:])
-
-        def connect(self, f):
-            from twisted.internet.defer import Deferred
-            return Deferred()
-    with mock.patch.object(vclient, "HostnameEndpoint", lambda *a: Ep("hostname", *a)), \
-            mock.patch.object(vclient, "UNIXClientEndpoint", lambda *a: Ep("unix", *a)):
+    def on_connect(kind, args, factory):
+        from twisted.internet.defer import Deferred
+        made.append((kind,) + tuple(args))
+        return Deferred()
+    with fake_endpoints(on_connect):
         try:
             vclient.factory_connect(mock.Mock(), host, port, fam)
         except ValueError:
